@@ -364,6 +364,12 @@ def instances(tier, seed=0):
                 if tier == "quick" and len(ch) == 1 and bid not in ("num:K3", "num:K2", "num:CDI", "num:CSYnum") and not stable_pick((bid, ch, mod), 4, seed):
                     continue
                 items.append({"bid": bid, "chain": list(ch), "mod": mod, "timeout": 15 if tier == "quick" else 60})
+    # three modifiers deep, hand-picked: a NON-unitary gate (the exponential of a self-adjoint gate) under controls / dagger and an
+    # inverse power, in every order - "inverse = adjoint" short cuts are wrong exactly there
+    if tier == "quick":
+        for bid in ("num:X", "num:Z", "num:H", "num:Y"):
+            for ch, mod in ((["exp", "c1"], "pow(-1)"), (["exp", "pow(-1)"], "c1"), (["exp", "dagger"], "pow(-1)"), (["exp", "c1"], "pow(2)"), (["exp", "c1"], "dagger")):
+                items.append({"bid": bid, "chain": list(ch), "mod": mod, "timeout": 30})
     for name in SEQUENCES:
         items.append({"seq": name, "bid": f"seq:{name}", "chain": [], "mod": "sequence"})
     return items
